@@ -234,5 +234,5 @@ Proof.
     + rewrite Hu. rewrite Z.add_0_l. rewrite <- Z.mul_assoc. rewrite <- Z.pow_add_r by lia.
       replace (Z.of_nat 6 - Z.of_nat (List.length (d0 :: ds0)) + Z.of_nat (List.length (d0 :: ds0))) with 6 by lia. reflexivity.
   - assert (Hrest := Hf). apply fin_of_spec in Hrest. destruct Hrest as [-> _].
-    apply (Hfin 0 [90%N] []); auto.
+    apply (Hfin 0 [90%N] []); auto. simpl. lia.
 Qed.
